@@ -478,6 +478,9 @@ func (p *parser) parseList(leftType, rightType tokenType) func() (*astNode, erro
 		if T[i].typ != leftType {
 			return nil, nil
 		}
+		if i+1 >= len(T) {
+			return nil, nil
+		}
 		typ := T[i+1].typ
 		if typ != rightType && typ != integer && typ != str {
 			return nil, nil
